@@ -2,13 +2,14 @@ import os
 ID = 'C13'
 LEVEL = 'other'
 CONTRACT_MODULES = ['contracts.catforecast']
-CONE = ['csep.core.forecasts.CatalogForecast.__next__']
+CONE = ['csep.core.forecasts.CatalogForecast.__next__', 'csep.core.forecasts.CatalogForecast.get_event_counts',
+        'csep.core.forecasts.CatalogForecast.get_expected_rates']
 ORACLE_MODULES = ['rt.oracles_catfc']
 BOUNDED = os.path.exists(os.path.join(os.path.dirname(__file__), '..', 'rt', 'bounded_C13.py'))
 FLOAT_MODEL = 'n/a (concrete executions)'
 TRUSTED = ['the oracles in rt/ compute the expected outcome from the property statement, independently of the code under test', 'pyvc engine, z3 5.1']
-ASSUMPTIONS = ['the functions of this property are outside the deductive reach of the engine in this round (generators, file readers, recursion over tiles, whole-test pipelines): every clause is decided by the bounded run-time contract only; see DESIGN.md section 10']
-EXPLANATION = 'deductive: step relation of __next__ on abstract catalogs (keys), list-backed and generator-backed, store on/off, filters on/off; bounded: all operation histories up to length 3 (quick) / 4 (thorough) over {iterate, get_event_counts, get_expected_rates, spatial/magnitude counts, tests} x 4 configurations: run-time contract of CatalogForecast'
+ASSUMPTIONS = ['the step relation of __next__ is proved for list-backed and generator-backed forecasts; complete passes (get_event_counts, get_expected_rates, the catalog-based tests) are cut by the PASS invariant: by induction over the proved step relation and idempotence of filtering (lemma L6_filter_idem) a pass started at cursor 0 yields the (filtered) catalogs 0..J-1 in order and leaves the per-pass counts and the cursor as recorded - the induction itself is a hand argument over the proved step, not a machine-checked obligation', 'get_event_counts / get_expected_rates are proved for list-backed forecasts that know their length; generator-backed passes and arbitrary operation histories are covered by the bounded run-time contract']
+EXPLANATION = 'deductive: step relation of __next__ on abstract catalogs (keys), list-backed and generator-backed, store on/off, filters on/off; get_event_counts == sizes of the catalogs of one pass with the configured filters applied (also when the catalogs are held in memory), cached counts returned as they are; get_expected_rates == per-bin mean of the space-magnitude counts over the pass (loop invariant with the summation lemma), cached object returned on later requests; bounded: all operation histories up to length 3 (quick) / 4 (thorough) over {iterate, get_event_counts, get_expected_rates, spatial/magnitude counts, tests} x 4 configurations: run-time contract of CatalogForecast'
 TECHNIQUE = 'contract (step relation + bookkeeping invariant) on the real __next__ over symbolic-length lists and an abstract generator, z3; bounded stand-in: run-time form of the contracts on the real code (small-scope enumeration + directed cases), labelled bounded, nothing counted as proved'
 LEVEL_TEXT = 'other: the step relation of CatalogForecast.__next__ (which catalog is yielded, filters applied iff configured, cursor, per-pass event counts, caching, mode switch at the end of a pass) is proved for forecasts of arbitrary length in five configurations; that complete passes repeat (induction over the step relation, idempotence of filtering = lemma L6_filter_idem) and the operations built on iteration (get_event_counts, get_expected_rates, tests) are decided by the bounded run-time contract'
 LEVEL_NOTE = 'bounded only; oracle independence trusted'
